@@ -260,7 +260,10 @@ impl Oracle for Stability {
                 oracle = "name-update";
                 self.name_events += 1;
                 // a pure rename (same scope): no value changes, users of the name follow
-                if scope == new_scope && name.to_lowercase() != new_name.to_lowercase() {
+                // (only when the name is the only one of that spelling: a global and a local
+                // name may share it, and the event's scope is an index, the stored one an id)
+                let homonyms = pre.stored.keys().filter(|k| k.starts_with(&format!("name@{}|", name.to_lowercase()))).count();
+                if scope == new_scope && name.to_lowercase() != new_name.to_lowercase() && homonyms == 1 {
                     let vals = values(model);
                     self.values_compared += pre.values.len() as u64;
                     // the definition may have changed too: only compare when it did not
